@@ -507,29 +507,68 @@ func c03ExitCodeMap(c *Check, a *Anchors) {
 	}
 	c.Fn(mainFn)
 	info := mainFn.Info()
-	type exit struct {
-		pos  ast.Node
-		arg  ast.Expr
-		kind string
-	}
-	var exits []exit
-	inspectBody(mainFn.Body, func(nd ast.Node) bool {
-		if call, ok := nd.(*ast.CallExpr); ok && isFunc(callee(info, call), "os", "", "Exit") && len(call.Args) == 1 {
-			k := "other:" + exprStr(call.Args[0])
-			if inner, ok := ast.Unparen(call.Args[0]).(*ast.CallExpr); ok {
-				switch {
-				case isFunc(callee(info, inner), PkgErrors, "TaskRunError", "TaskExitCode"):
-					k = "TaskExitCode"
-				default:
-					if fn, ok := callee(info, inner).(*types.Func); ok && fn.Name() == "Code" {
-						k = "Code"
-					}
+	classify := func(inf *types.Info, e ast.Expr) string {
+		if inner, ok := ast.Unparen(e).(*ast.CallExpr); ok {
+			switch {
+			case isFunc(callee(inf, inner), PkgErrors, "TaskRunError", "TaskExitCode"):
+				return "TaskExitCode"
+			default:
+				if fn, ok := callee(inf, inner).(*types.Func); ok && fn.Name() == "Code" {
+					return "Code"
 				}
-			} else if sel, ok := ast.Unparen(call.Args[0]).(*ast.SelectorExpr); ok {
-				k = "const:" + sel.Sel.Name
 			}
-			exits = append(exits, exit{call, call.Args[0], k})
 		}
+		if tv, ok := inf.Types[e]; ok && tv.Value != nil {
+			switch s := ast.Unparen(e).(type) {
+			case *ast.SelectorExpr:
+				return "const:" + s.Sel.Name
+			case *ast.Ident:
+				return "const:" + s.Name
+			}
+		}
+		return "other:" + exprStr(e)
+	}
+	type exitSite struct {
+		node  ast.Node // the os.Exit call or the helper's return
+		kind  string
+		fb    *FuncBody
+		guard string // fact that must hold for the TaskExitCode case
+	}
+	var exits []exitSite
+	inspectBody(mainFn.Body, func(nd ast.Node) bool {
+		call, ok := nd.(*ast.CallExpr)
+		if !ok || !isFunc(callee(info, call), "os", "", "Exit") || len(call.Args) != 1 {
+			return true
+		}
+		// os.Exit(helper(err, flags.ExitCode)): the helper's returns, in order, are the exit values
+		if hc, ok := ast.Unparen(call.Args[0]).(*ast.CallExpr); ok {
+			if fn, ok := callee(info, hc).(*types.Func); ok {
+				if h := c.P.DeclOf(fn); h != nil && h.Pkg == mainFn.Pkg {
+					c.Fn(h)
+					guard := "true:pkgvar:flags.ExitCode"
+					pi := 0
+					for _, fld := range h.Type.Params.List {
+						for _, id := range fld.Names {
+							if pi < len(hc.Args) {
+								if sel, ok := ast.Unparen(hc.Args[pi]).(*ast.SelectorExpr); ok && fieldKey(info, sel) == "pkgvar:flags.ExitCode" {
+									if pv, ok := h.Info().Defs[id].(*types.Var); ok {
+										guard = fmt.Sprintf("true:var:%s#%d", pv.Name(), pv.Pos())
+									}
+								}
+							}
+							pi++
+						}
+					}
+					for _, r := range returnsOf(h.Body) {
+						if len(r.Results) == 1 {
+							exits = append(exits, exitSite{r, classify(h.Info(), r.Results[0]), h, guard})
+						}
+					}
+					return true
+				}
+			}
+		}
+		exits = append(exits, exitSite{call, classify(info, call.Args[0]), mainFn, "true:pkgvar:flags.ExitCode"})
 		return true
 	})
 	var seq []string
@@ -538,15 +577,15 @@ func c03ExitCodeMap(c *Check, a *Anchors) {
 	}
 	wantSeq := []string{"TaskExitCode", "Code", "const:CodeUnknown", "const:CodeOk"}
 	okSeq := strings.Join(seq, ",") == strings.Join(wantSeq, ",")
-	c.Decide(okSeq, "exit-code-map", "main-exit-order", mainFn.Decl.Pos(), "os.Exit sites in order: "+strings.Join(seq, ", "),
-		"main's os.Exit sites are "+strings.Join(seq, ", ")+"; expected "+strings.Join(wantSeq, ", ")+" (the --exit-code case must be tested before the generic TaskError case, the fallback must be CodeUnknown)")
+	c.Decide(okSeq, "exit-code-map", "main-exit-order", mainFn.Decl.Pos(), "exit values in order: "+strings.Join(seq, ", "),
+		"main's exit values are "+strings.Join(seq, ", ")+"; expected "+strings.Join(wantSeq, ", ")+" (the --exit-code case must be tested before the generic TaskError case, the fallback must be CodeUnknown)")
 	// the TaskExitCode exit must be guarded by the *TaskRunError assertion and flags.ExitCode
 	if len(exits) > 0 && exits[0].kind == "TaskExitCode" {
-		f := NewFlow(c.P, mainFn, func(call *ast.CallExpr, obj types.Object) string { return "" })
+		f := NewFlow(c.P, exits[0].fb, func(call *ast.CallExpr, obj types.Object) string { return "" })
+		f.NoInline = true
 		f.Run()
-		st := f.At[exits[0].pos]
-		guard := st.Has("true:pkgvar:flags.ExitCode")
-		c.Decide(guard, "exit-code-map", "exit-code-flag-guard", exits[0].pos.Pos(), "TaskExitCode is used only when flags.ExitCode is set", "the command's own exit code is used without the --exit-code flag being tested; must-facts: "+st.String())
+		st := f.At[exits[0].node]
+		c.Decide(st.Has(exits[0].guard), "exit-code-map", "exit-code-flag-guard", exits[0].node.Pos(), "TaskExitCode is used only when flags.ExitCode is set", "the command's own exit code is used without the --exit-code flag being tested; must-facts: "+st.String())
 	}
 	// 4. TaskExitCode returns the exit status when there is one
 	tec := c.P.Func(PkgErrors, "TaskRunError", "TaskExitCode")
